@@ -1,0 +1,16 @@
+//go:build verif
+
+// Contracts for the WWW-Authenticate parameter parser (property C28). Comment-only.
+// The functional round trip (Parse*(buildWWWAuthenticate(m)) == m) is NOT within reach of the
+// string model: it is covered by a bounded exhaustive run of the real functions
+// (/verif/bounded/c28_wwwauth_roundtrip_test.go), reported as bounded, never as proved.
+// What is proved here: the parser never slices out of range for any header/param strings, and
+// its scan terminates.
+
+package vgirpc
+
+//@ func parseQuotedParam
+//@   property C28
+//@   nopanic
+//@   loop 0 invariant 0 <= from && from <= len(header)
+//@   loop 0 decreases len(header) - from
